@@ -150,6 +150,91 @@ def run(ctx):
     ctx.ob('T10.tail', isl.fq, 'the text after the last line break is yielded as well (a yield of text[<end of last break>:] after the '
            'scan loop)', any(open_tail(y.value) for y in after), loc=isl.loc,
            detail='yields after the loop: %s' % [txt(y.value) for y in after])
+    # T10.empty: a text without any line break yields at most its (non-empty) self: on the paths where the scan loop finds no
+    # break at all, every yield is preceded by a truth test of the very value it yields ('' must give no line, as
+    # ''.splitlines() == [])
+    wi, ipaths = paths_of(prog, isl)
+    n_zero = 0
+    bad0 = None
+    for p in ipaths:
+        its = [o for o in p.ops if o.kind == 'iter_next']
+        if not its or its[0].info is not False:
+            continue
+        n_zero += 1
+        ts = tests_on(wi, p)
+        for y in [o for o in p.ops if o.kind == 'yield']:
+            v = txt(wi.expand(y.val)) if y.val is not None else None
+            if not any(t == v and truth and x.seq < y.seq for t, truth, x in ts) and bad0 is None:
+                bad0 = (p, y)
+    if n_zero == 0:
+        ctx.unknown('T10.empty', isl.fq, 'no path on which the scan loop finds no line break', isl.loc)
+    else:
+        ctx.ob('T10.empty', isl.fq, 'without any line break only a non-empty text is yielded (every yield on those paths follows a truth '
+               'test of the yielded value)', bad0 is None, loc=loc(isl, bad0[1].node) if bad0 else isl.loc,
+               path=bad0[0].describe() if bad0 else None)
+    # T7.defer: reverse_iter_lines emits lines from a buffer only when the buffer does not *start* at a line break (the break may
+    # be half of a \r\n cut by the block boundary, or belong to a blank line): every pass that yields lines has established that
+    # the first piece of the split buffer is non-empty, or that the first byte is neither \n nor \r
+    ril0 = prog.func('jsonutils.reverse_iter_lines')
+    wr0, rp0 = paths_of(prog, ril0)
+    from sa.consteval import Folder as _Fo, Unknown as _Un
+    fo = _Fo(prog.module('jsonutils'))
+    n_emit = 0
+    bad_e = None
+    for p in rp0:
+        marks = [o.seq for o in p.ops if o.kind == 'loop_iter'] + [10 ** 9]
+        for a, b in zip(marks, marks[1:]):
+            seg = [o for o in p.ops if a < o.seq < b]
+            ys = [o for o in seg if o.kind == 'yield']
+            sp = [o for o in seg if o.kind == 'call' and isinstance(o.val.func, ast.Attribute) and o.val.func.attr in ('splitlines', 'split')]
+            if not ys or not sp:
+                continue
+            tok = [nm for nm, info in wr0.tokens.items() if info[0] == 'call' and len(info) > 2 and info[2] is sp[0]]
+            if not tok:
+                continue
+            # only passes that emit pieces of the split
+            if not any(o.kind == 'iter_start' and tok[0] in txt(o.val) for o in seg):
+                continue
+            n_emit += 1
+            buf = txt(sp[0].val.func.value)
+            ok = False
+            for o in seg:
+                if o.kind != 'test' or o.seq > ys[-1].seq:
+                    continue
+                e = o.val
+                neg = False
+                while isinstance(e, ast.UnaryOp) and isinstance(e.op, ast.Not):
+                    e, neg = e.operand, not neg
+                truth = (o.info is True) != neg
+                t = txt(e)
+                first = '%s[0]' % tok[0]
+                if t == first and truth:
+                    ok = True
+                if isinstance(e, ast.Compare) and len(e.ops) == 1:
+                    l, r, opn = txt(e.left), e.comparators[0], type(e.ops[0]).__name__
+                    if l == first and opn in ('Eq', 'NotEq'):
+                        try:
+                            if fo.fold(r) in (b'', ''):
+                                ok = ok or (opn == 'Eq' and not truth) or (opn == 'NotEq' and truth)
+                        except (_Un, Exception):
+                            pass
+                    bq = buf.replace(' ', '')
+                    if l.replace(' ', '') in ('%s[:1]' % bq, '(%s)[:1]' % bq, '%s[0:1]' % bq, '(%s)[0:1]' % bq) and opn in ('In', 'NotIn'):
+                        try:
+                            cs = set(fo.fold(r))
+                        except (_Un, Exception):
+                            cs = set()
+                        if ({b'\n', b'\r'} <= cs or {'\n', '\r'} <= cs) and ((opn == 'In' and not truth) or (opn == 'NotIn' and truth)):
+                            ok = True
+            if not ok and bad_e is None:
+                bad_e = (p, ys[0])
+    if n_emit == 0:
+        ctx.unknown('T7.defer', ril0.fq, 'no pass of the block loop that yields pieces of the split buffer', ril0.loc)
+    else:
+        ctx.ob('T7.defer', ril0.fq, 'lines are emitted from the buffer only after it was established not to start at a line break '
+               '(first piece of the split non-empty, or first byte neither \\n nor \\r)', bad_e is None,
+               loc=loc(ril0, bad_e[1].node) if bad_e else ril0.loc, detail='%d emitting passes' % n_emit,
+               path=bad_e[0].describe() if bad_e else None)
     # T9.whole: reverse_iter_lines reads the file backwards in blocks and carries the unfinished head of the buffer over.  The
     # carried part may already hold complete lines (deferred when a block boundary fell right in front of a line break), so in
     # every pass of the block loop the decision what to do next looks at the *whole* buffer (the block just read joined with the
